@@ -273,11 +273,13 @@ class Extract:
                     raise WalkLimit("all() over a literal list")
                 return ("bool", d)
             raise WalkLimit("%s over %r" % (n, it and it[0]))
-        if n.endswith("Iterator::filter") and xs[0] == ("chars",):
+        if n.endswith("Iterator::filter") and xs[0] in (("chars",), ("bytes",)):
             clo = xs[1]
             if not (clo and clo[0] == "closure"):
                 raise WalkLimit("filter: predicate is not a closure literal")
-            return ("filter", self.class_syms(clo[1]), clo[1].rsplit("::", 1)[-1])
+            # a byte class that accepts ASCII bytes only counts exactly the characters of that class
+            syms = self.class_syms(clo[1]) if xs[0] == ("chars",) else self.byte_class_syms(clo[1])
+            return ("filter", syms, clo[1].rsplit("::", 1)[-1])
         if n.endswith("Iterator::count"):
             if xs[0] and xs[0][0] == "filter":
                 return ("count", xs[0][1], xs[0][2])
